@@ -79,7 +79,7 @@ func classify(s *Spec, t *Taint, inMark bool) {
 	case "safedetailsnofmt":
 		U(0)
 		Sf(1)
-	case "new", "newf0", "assertf0", "wrapf0", "withmsgf0", "wrap", "wrapecho", "withmsg", "wrapferr", "assertwraperr", "newfwerr", "wrapfgosyntax", "handledmsgf0", "stleaf", "stwrap":
+	case "new", "newf0", "assertf0", "wrapf0", "withmsgf0", "wrap", "wrapecho", "withmsg", "wrapferr", "wrapferrprec", "assertwraperr", "newfwerr", "wrapfgosyntax", "handledmsgf0", "stleaf", "stwrap":
 		Sf(0)
 	case "newf", "assertf", "wrapf", "withmsgf", "safedetails", "assertwrap", "newfw", "newfwsuffix", "handledmsgf", "handledsafemsg":
 		Sf(0)
@@ -100,7 +100,7 @@ func classify(s *Spec, t *Taint, inMark bool) {
 		U(0)
 		U(1)
 	case "uwrapstackdetails":
-		N(0) // safe details declared by a user type
+		N(0) // reported by the type's own SafeDetails(): claimed by C12 on the visible chain only
 		U(1)
 	case "uleafsafefmt", "uwrapsafefmt", "uwrapbothfmt":
 		N(0)
